@@ -166,6 +166,18 @@ func (in *Instance) Stop() error {
 	return err
 }
 
+// StopCtx is App.Stop with the caller's context (a deadline for the graceful part); the error of Stop is returned and
+// the instance counts as stopped either way.
+func (in *Instance) StopCtx(ctx context.Context) error {
+	if in.App == nil {
+		return nil
+	}
+	in.hc.CloseIdleConnections()
+	err := in.App.Stop(ctx)
+	in.App = nil
+	return err
+}
+
 // Close stops everything and removes the scenario directory.
 func (in *Instance) Close() {
 	_ = in.Stop()
